@@ -124,7 +124,12 @@ impl PhysLayer {
                 x.write_all(data).await
             }
             #[cfg(feature = "enable-tls")]
-            PhysLayerImpl::Tls(x) => x.write_all(data).await,
+            PhysLayerImpl::Tls(x) => {
+                x.write_all(data).await?;
+                // the TLS layer accepts data it cannot hand to a full socket yet and nothing
+                // but the next write or a flush sends it: do not leave a frame behind
+                x.flush().await
+            }
             #[cfg(test)]
             PhysLayerImpl::Mock(x) => x.write_all(data).await,
             #[cfg(feature = "verif-hooks")]
